@@ -204,6 +204,7 @@ type c47World struct {
 	ncnr    int // containers in total: nsh own containers first, then the shared ones
 	shards  []*c47Shard
 	objs    []c47Obj
+	marked  map[int]bool // objects the history garbage-marked itself
 	rmBatch int
 	gcInt   time.Duration
 	batch   int
@@ -433,6 +434,13 @@ func (w *c47World) snapshot() map[[2]int]string {
 					continue
 				}
 				a := w.addr(o)
+				k := [2]int{s.idx, o.cnr}
+				if w.marked[o.id] {
+					// the history itself marked it as garbage (a forced mark: the GC removes it whenever
+					// it gets to it, a locked one reads as available until then): not part of the view
+					res[k] += fmt.Sprintf(" o%d=(garbage-marked)", o.id)
+					continue
+				}
 				cl := ""
 				ex, err := s.sh.Exists(a, false)
 				switch {
@@ -450,7 +458,6 @@ func (w *c47World) snapshot() map[[2]int]string {
 				if listed[a] {
 					cl += "+listed"
 				}
-				k := [2]int{s.idx, o.cnr}
 				res[k] += fmt.Sprintf(" o%d=%s", o.id, cl)
 			}
 		}
@@ -475,7 +482,7 @@ func c47Cells(m map[[2]int]string) [][2]int {
 func c47Live(view string) bool { return strings.Contains(view, "=available") || strings.Contains(view, "=removed") }
 
 func runC47e(r *simkit.R) {
-	w := &c47World{r: r, ep: &vEpoch{}, payUnpaid: map[int]int64{}, payErr: map[[2]int]bool{}}
+	w := &c47World{r: r, ep: &vEpoch{}, payUnpaid: map[int]int64{}, payErr: map[[2]int]bool{}, marked: map[int]bool{}}
 	w.k = simkit.NewKernel(r)
 	w.nsh = 1 + r.Intn(3)
 	nshared := 2 + r.Intn(2)
@@ -552,6 +559,7 @@ func runC47e(r *simkit.R) {
 		for _, gi := range garbage {
 			o := w.objs[gi]
 			a := w.addr(o)
+			w.marked[o.id] = true
 			_ = w.shards[o.shard].sh.MarkGarbage(a.Container(), []oid.ID{a.Object()}, meta.GarbageMarkDefault)
 		}
 	})
